@@ -206,6 +206,13 @@ impl<'v> Heap<'v> {
 
     /// Add a dependency onto the provided frozen heap.
     pub fn add_reference(&self, h: &FrozenHeapRef) {
+        #[cfg(starlark_verif)]
+        crate::verif::global_emit(
+            "heap_add_ref",
+            0,
+            self.0 as *const OwnedHeap as usize as i64,
+            h.verif_id() as i64,
+        );
         let mut refs = self.0.refs.borrow_mut();
         if !refs.contains(h) {
             refs.insert(h.dupe());
@@ -714,6 +721,8 @@ pub(crate) fn cached_heap_deserialization_state_retained_bytes(
 
 impl Drop for FrozenFrozenHeap {
     fn drop(&mut self) {
+        #[cfg(starlark_verif)]
+        crate::verif::global_emit("heap_free", 0, self as *const Self as usize as i64, 0);
         if let Some(state) = self.deser_state.get() {
             state.unregister_heap(FrozenHeapPtr(self as *const Self as usize));
         }
@@ -903,6 +912,27 @@ impl HeapAllocationOrigin {
 }
 
 impl FrozenHeapRef {
+    /// Identity of the underlying frozen heap (0 for the empty heap).
+    #[cfg(starlark_verif)]
+    pub fn verif_id(&self) -> usize {
+        match &self.0 {
+            Some(arc) => {
+                let x: &FrozenFrozenHeap = Deref::deref(arc);
+                x as *const FrozenFrozenHeap as usize
+            }
+            None => 0,
+        }
+    }
+
+    /// Identities of the frozen heaps this heap keeps alive.
+    #[cfg(starlark_verif)]
+    pub fn verif_refs(&self) -> Vec<usize> {
+        match &self.0 {
+            Some(arc) => arc.refs.iter().map(|r| r.verif_id()).collect(),
+            None => Vec::new(),
+        }
+    }
+
     /// Only page-in installs a `HeapDeserializationState`, so its presence
     /// separates a reconstructed allocation from a live one.
     pub(crate) fn allocation_origin(&self) -> HeapAllocationOrigin {
@@ -1137,6 +1167,13 @@ impl FrozenHeap {
     /// is kept alive. Used if a [`FrozenValue`] in this heap points at values in another
     /// [`FrozenHeap`].
     pub fn add_reference(&self, heap: &FrozenHeapRef) {
+        #[cfg(starlark_verif)]
+        crate::verif::global_emit(
+            "heap_add_ref",
+            1,
+            self as *const Self as usize as i64,
+            heap.verif_id() as i64,
+        );
         if heap.0.is_none() {
             return;
         }
@@ -1375,6 +1412,8 @@ impl<'v> Heap<'v> {
 
     unsafe fn garbage_collect_internal(self, f: impl FnOnce(&Tracer<'v>)) {
         unsafe {
+            #[cfg(starlark_verif)]
+            crate::verif::emit("gc_begin", self.allocated_bytes() as i64, 0, 0);
             // Must rewrite all Value's so they point at the new heap.
             // Take the arena out of the heap to make sure nobody allocates in it,
             // but hold the reference until the GC is done.
@@ -1386,6 +1425,8 @@ impl<'v> Heap<'v> {
             };
             f(&tracer);
             self.0.arena.set(tracer.arena);
+            #[cfg(starlark_verif)]
+            crate::verif::emit("gc_end", self.allocated_bytes() as i64, 0, 0);
         }
     }
 
